@@ -225,8 +225,12 @@ func (b *mBucket) delete(r *Cache, h *mHead, hash uint32, ns, key uint64) (done,
 	b.mu.Unlock()
 
 	if deleted {
-		// Call delete funcs.
-		for _, f := range n.delFuncs {
+		// Call delete funcs, once.
+		n.mu.Lock()
+		delFuncs := n.delFuncs
+		n.delFuncs = nil
+		n.mu.Unlock()
+		for _, f := range delFuncs {
 			f()
 		}
 
@@ -720,19 +724,24 @@ func (n *Node) GetHandle() *Handle {
 }
 
 func (n *Node) callFinalizer() {
+	// Take the value and the delete funcs exactly once: Close(force) and a
+	// concurrent Handle.Release may both get here.
+	n.mu.Lock()
+	value, delFuncs := n.value, n.delFuncs
+	n.value, n.delFuncs = nil, nil
+	n.mu.Unlock()
+
 	// Call releaser.
-	if n.value != nil {
-		if r, ok := n.value.(util.Releaser); ok {
+	if value != nil {
+		if r, ok := value.(util.Releaser); ok {
 			r.Release()
 		}
-		n.value = nil
 	}
 
 	// Call delete funcs.
-	for _, f := range n.delFuncs {
+	for _, f := range delFuncs {
 		f()
 	}
-	n.delFuncs = nil
 }
 
 func (n *Node) unRefInternal(updateStat bool) {
@@ -748,7 +757,11 @@ func (n *Node) unRefExternal() {
 	if atomic.AddInt32(&n.ref, -1) == 0 {
 		n.r.mu.RLock()
 		if n.r.closed {
-			n.callFinalizer()
+			// The node may have been revived by a Get between the decrement
+			// and here; only the holder that sees zero finalizes it.
+			if atomic.LoadInt32(&n.ref) == 0 {
+				n.callFinalizer()
+			}
 		} else {
 			n.r.delete(n)
 			atomic.AddInt64(&n.r.statDel, 1)
